@@ -25,6 +25,17 @@ CHECKS['C06'] = dict(
     note='Trusts the stack-effect table in lib/lyverify.py (written from ops.rs) and the dump hook reporting what is really encoded; the all-paths claim holds for the functions of the corpus only.',
     ref='DESIGN.md §2 C06')
 
+CHECKS['C07'] = dict(
+    technique='offline history checker over event logs recorded at the program boundary of generated fiber/channel networks (unique values), Kahn-network received sequences',
+    text='Thousands of generated networks (2-6 fibers, 1-4 channels, synchronous and buffered, close) print call/return events around every channel operation; stdout order is real-time order because fibers switch only inside channel operations. The offline checker decides: nothing invented, duplicated, lost or reordered, capacity never exceeded, synchronous rendezvous, close semantics; for single-reader/single-writer networks the received sequences are compared with the determinate Kahn-network result.',
+    note='Histories are what the scheduler produced for the generated programs (the schedule is deterministic per program; diversity comes from program diversity). Known finding D16 is matched by signature; the two-party synchronous stratum admits no known finding.',
+    ref='DESIGN.md §2 C07')
+CHECKS['C08'] = dict(
+    technique='outcome monitor against a Kahn-network model, deadlock justification over recorded histories, logical-time step budget, scheduler event trace hook',
+    text='Same generated networks: the terminal outcome (normal exit / reported deadlock) is compared with the Kahn-network model where the network is determinate; every reported deadlock must be justified by the recorded history (main blocked, every parked fiber disabled, nothing runnable); hangs are decided on a step budget; launch argument/capture/receiver delivery and main-ends-program are checked by dedicated programs. Liveness is restated as bounded progress.',
+    note='Unbounded eventually is out of reach of a finite run; replaced by the step budget. Known scheduler findings D4/D5/D22 are matched by signature outside the clean two-party synchronous stratum, where any deviation is a violation.',
+    ref='DESIGN.md §2 C08')
+
 PENDING = {}
 
 
